@@ -8,10 +8,37 @@ class Program:
         self.funcs = d['funcs']
         self.types = d['types']
         self.packages = d['packages']
+        self._separate_register_names()
         self.aliases = {}     # stable name -> go/ssa function key   (pkg.var.Field for closures stored in package-level literals)
         self.display = {}     # go/ssa function key -> stable name
         self._closure_aliases()
         self.const_globals = self._const_globals()
+
+    def _separate_register_names(self):
+        """go/ssa names its registers t0, t1, ...; a Go parameter or captured variable may carry the same name
+        (CompareTipIndexes(t2 *Tree)).  Registers that collide are renamed so that both live in one environment."""
+        def rename(o, names):
+            if isinstance(o, dict):
+                if o.get('k') == 'reg' and o.get('name') in names:
+                    o['name'] = o['name'] + '#r'
+                for v in o.values():
+                    rename(v, names)
+            elif isinstance(o, list):
+                for v in o:
+                    rename(v, names)
+        for key, f in self.funcs.items():
+            P = {p['name'] for p in f.get('params', [])} | {p['name'] for p in f.get('freevars', [])}
+            regs = {i['name'] for b in f['blocks'] for i in b['instrs'] if 'name' in i}
+            coll = P & regs
+            if not coll:
+                continue
+            for b in f['blocks']:
+                for i in b['instrs']:
+                    for fld, v in i.items():
+                        if fld != 'name':
+                            rename(v, coll)
+                    if i.get('name') in coll:
+                        i['name'] = i['name'] + '#r'
 
     def _const_globals(self):
         """package-level variables that are initialised with a constant and never assigned outside the package
